@@ -18,7 +18,7 @@ var c15Words = []string{"Alpha", "Beta", "Gamma", "Example.com", "Lorem ipsum do
 var c15Seps = []string{" ", " - ", " | ", " » ", " / ", " > ", " \\ ", ": ", "-", "'", "\u00a0"}
 
 var c15H1 = []string{"absent", "title", "part", "other"}
-var c15H2 = []string{"absent", "title"}
+var c15H2 = []string{"absent", "title", "other"}
 var c15Markup = []string{"absent", "schema", "og", "og-unqualified", "og-padded", "ie-padded"}
 
 func c15Title(ws, ss []int) string {
@@ -83,6 +83,8 @@ func c15Doc(title, h1, h2, markup string) string {
 	sb.WriteString("<p>" + t.W(22) + "</p>")
 	if h2 == "title" {
 		sb.WriteString("<h2>" + esc(title) + "</h2>")
+	} else if h2 == "other" {
+		sb.WriteString("<h2>Secondary Heading Made Of Seven Plain Words</h2>")
 	}
 	sb.WriteString("<p>" + t.W(25) + "</p><p>" + t.W(21) + "</p>" + body + "</div></body></html>")
 	return sb.String()
@@ -245,7 +247,7 @@ func init() {
 	eng.Register(&eng.Prop{
 		ID:        "C15",
 		DesignRef: "§5 C15",
-		Rule: "all <title> strings word(sep word)* with <= 3 (quick) / <= 4 (thorough) words over 7 words (3 short, one containing a .com domain, a 26-character filler, a 110-character/200-byte Cyrillic sentence, a 180-character filler) and 11 separators (incl. NBSP) (' ', ' - ', ' | ', ' » ', ' / ', ' > ', ' \\ ', ': ', '-', apostrophe) x h1 {absent, = title, = longest part, other} x h2 {absent, = title} x markup title {absent, schema.org headline, OpenGraph qualified, OpenGraph unqualified, OpenGraph and IE titles padded with whitespace/NBSP}; the full variant product for titles of <= 2 / <= 3 words, h1 x {no markup, schema} for the longest titles. " +
+		Rule: "all <title> strings word(sep word)* with <= 3 (quick) / <= 4 (thorough) words over 7 words (3 short, one containing a .com domain, a 26-character filler, a 110-character/200-byte Cyrillic sentence, a 180-character filler) and 11 separators (incl. NBSP) (' ', ' - ', ' | ', ' » ', ' / ', ' > ', ' \\ ', ': ', '-', apostrophe) x h1 {absent, = title, = longest part, other} x h2 {absent, = title, other} x markup title {absent, schema.org headline, OpenGraph qualified, OpenGraph unqualified, OpenGraph and IE titles padded with whitespace/NBSP}; the full variant product for titles of <= 2 / <= 3 words, h1 x {no markup, schema} for the longest titles. " +
 			"Oracle: MarkupInfo.Title non-empty => Title equals it; else Title is a contiguous part of the normalised <title> or the first h1, non-empty when <title> is, and exactly <title> when that is 15-150 characters with no separator pattern; no h1/h2/h3/p whose text equals Title is emitted in Text or result.Node. " +
 			"Non-trivial = a block equal to Title exists, or the heuristic changed the title.",
 		Enumerate: c15Enumerate,
